@@ -138,6 +138,13 @@ KINDS = {
     # nested integers of NARROW types: values beyond the element type (also beyond i64) inside array / map defaults
     "vec_i8": ({"type": "array", "items": {"type": "integer", "format": "int8"}}, [[127, -128], []], [[9223372036854775808], [128], [-129]], False),
     "map_u8": ({"type": "object", "additionalProperties": {"type": "integer", "format": "uint8", "minimum": 0}}, [{"k": 255}], [{"k": 18446744073709551615}, {"k": 256}], False),
+    # NESTED integers of the NonZero types (effective minimum exactly 1, with and without a format): 0 is the one in-range-looking value they exclude
+    "nz64": ({"type": "integer", "minimum": 1}, [1, 9], [0, -3], False),
+    "vec_nz": ({"type": "array", "items": {"type": "integer", "minimum": 1}}, [[1, 5], []], [[0, 1], [0]], False),
+    "vec_nz32": ({"type": "array", "items": {"type": "integer", "format": "uint32", "minimum": 1}}, [[1]], [[1, 0]], False),
+    "map_nz": ({"type": "object", "additionalProperties": {"type": "integer", "minimum": 1}}, [{"k": 2}, {}], [{"k": 0}], False),
+    "tuple_nz": ({"type": "array", "items": [{"type": "integer", "minimum": 1}, STR], "minItems": 2, "maxItems": 2}, [[3, "s"]], [[0, "s"]], False),
+    "struct_nz": ({"type": "object", "properties": {"n": {"type": "integer", "format": "uint16", "minimum": 1}, "s": STR}, "required": ["n"]}, [{"n": 1}], [{"n": 0}, {"n": 0, "s": "x"}], False),
     "enum_unt": (ref("Unt"), ["s", 5, [1]], [True, {}], False),
     "alias": (ref("Al"), [{"x": 2}], [{"x": "s"}], False),
     "boxed": (ref("Rec"), [{}, {"r": {}}], [{"r": 5}], False),
